@@ -12,7 +12,6 @@ import (
 	"fmt"
 	"math/big"
 	"path/filepath"
-	"reflect"
 	"runtime"
 	"strings"
 	"sync"
@@ -229,8 +228,22 @@ func expected(sp credgen.Spec, v credgen.View, o credgen.Opts) expect {
 		return bad("document does not merklize")
 	}
 	s := sp.Schema
+	if sp.Override != nil {
+		s = sp.Override // a later context redefines the type: the last definition is the type's
+	}
+	// the type's IRI: spelled with a prefix that only an EARLIER context of the credential declares
+	typeIRI := s.TypeIRI
+	if s.TypeIDWritten != "" {
+		has := false
+		for _, u := range sp.PreCtx {
+			has = has || u == credgen.URLPrefixCtx
+		}
+		if !has {
+			typeIRI = s.TypeIDWritten
+		}
+	}
 	// the credential type as the generator wrote it
-	ty := s.TypeIRI
+	ty := typeIRI
 	if sp.NoSubjectType || (sp.SubjectTypes != nil && len(sp.SubjectTypes) != 1) {
 		top := sp.TopTypes
 		if top == nil {
@@ -244,7 +257,7 @@ func expected(sp credgen.Spec, v credgen.View, o credgen.Opts) expect {
 			case "VerifiableCredential":
 				return credgen.VCIRI
 			case s.TypeName:
-				return s.TypeIRI
+				return typeIRI
 			}
 			for _, e := range s.Extra {
 				if e.Name == t {
@@ -267,7 +280,7 @@ func expected(sp credgen.Spec, v credgen.View, o credgen.Opts) expect {
 	// scoped context and are called ty or identified by ty, the one whose name sorts first
 	type cand struct{ name, shape, ser string }
 	var cands []cand
-	if s.TypeName == ty || s.TypeIRI == ty {
+	if s.TypeName == ty || typeIRI == ty {
 		c := cand{name: s.TypeName, shape: s.CtxShape}
 		if s.Ser != nil && s.SerRaw == nil {
 			c.ser = *s.Ser
@@ -418,6 +431,12 @@ func pathsOf(sp credgen.Spec) []string {
 	for _, e := range sp.Schema.Extra {
 		add(e.SerAttr)
 	}
+	if sp.Override != nil && sp.Override.Ser != nil {
+		add(*sp.Override.Ser)
+	}
+	if sp.AltSchema != nil && sp.AltSchema.Ser != nil {
+		add(*sp.AltSchema.Ser)
+	}
 	seen := map[string]bool{}
 	var out []string
 	for _, p := range ps {
@@ -442,6 +461,11 @@ func (g *gen) register(sp credgen.Spec) {
 	}
 	put(g.envs[0], sp.Schema)
 	put(g.envs[1], under(sp, 1).Schema)
+	if sp.Override != nil {
+		put(g.envs[0], sp.Override)
+		put(g.envs[1], sp.Override)
+	}
+	// envs[2] never learns a schema: every call that carries it fails while loading the contexts
 }
 
 func optsEqual(a credgen.Opts, r *verifiable.CoreClaimOptions) bool {
@@ -488,6 +512,13 @@ func (g *gen) run(in *Input) (out outcome) {
 		co := oneCall(&creds[k.Cred].VC, op)
 		ho.calls = append(ho.calls, co)
 		out.evals++
+		// after EVERY call, successful or not, every credential is what it was (proofs included)
+		for i := range creds {
+			if !credgen.SameCredential(&creds[i].VC, &pristine[i].VC) {
+				fail("c05-credential-written", fmt.Sprintf("after call %d (%s) credential %d differs from its pristine copy (proofs: %d, pristine: %d)", ci, co.class, i, len(creds[i].VC.Proof), len(pristine[i].VC.Proof)), map[string]any{"history": in, "call": ci})
+				creds[i], _ = credgen.Build(in.Creds[i]) // report each damage once
+			}
+		}
 		out.counts = append(out.counts, in.Kind+":"+co.class)
 		where := map[string]any{"history": in, "call": ci}
 		if co.class == "panic" {
@@ -544,10 +575,30 @@ func (g *gen) run(in *Input) (out outcome) {
 		}
 	}
 	for i := range creds {
-		a, _ := json.Marshal(&creds[i].VC)
-		b, _ := json.Marshal(&pristine[i].VC)
-		if !reflect.DeepEqual(creds[i].VC, pristine[i].VC) || string(a) != string(b) {
+		a, ea := json.Marshal(&creds[i].VC)
+		b, eb := json.Marshal(&pristine[i].VC)
+		if !credgen.SameCredential(&creds[i].VC, &pristine[i].VC) || string(a) != string(b) || (ea == nil) != (eb == nil) {
 			fail("c05-credential-written", fmt.Sprintf("credential %d differs from its pristine copy after the history", i), map[string]any{"history": in})
+		}
+		// the claim recorded in a proof is read back unchanged; a proof type the credential lacks is reported
+		if in.Creds[i].WithProof {
+			out.evals += 2
+			want, _ := credgen.Slots(credgen.ProofClaim())
+			cl, err := creds[i].VC.GetCoreClaimFromProof(verifiable.BJJSignatureProofType)
+			okc := err == nil && cl != nil
+			if okc {
+				got, e2 := credgen.Slots(cl)
+				okc = e2 == nil
+				for j := range got {
+					okc = okc && got[j].Cmp(want[j]) == 0
+				}
+			}
+			if !okc {
+				fail("c05-proof-claim", "GetCoreClaimFromProof does not return the claim recorded in the credential's proof", map[string]any{"history": in})
+			}
+			if cl2, err := creds[i].VC.GetCoreClaimFromProof(verifiable.Iden3SparseMerkleTreeProofType); err != verifiable.ErrProofNotFound || cl2 != nil {
+				fail("c05-proof-claim", "GetCoreClaimFromProof for a proof type the credential lacks does not report ErrProofNotFound", map[string]any{"history": in})
+			}
 		}
 	}
 	return out
@@ -888,6 +939,81 @@ func (g *gen) loaderStream(p pool) {
 	}
 }
 
+// failingStream: calls that fail at every stage (the credential does not marshal: NaN, +Inf, a
+// channel, a function, a failing json.Marshaler in credentialSubject; the contexts do not load; the
+// subject id is not a DID; unknown positions), on credentials that carry proofs, mixed with calls that
+// succeed on the same objects.  After every call the credential is what it was, and the next call
+// behaves like a fresh one.
+func (g *gen) failingStream(p pool) {
+	e := g.env
+	str := func(s string) *string { return &s }
+	did := credgen.MakeDID(13)
+	ms := e.NewSchema(nil)
+	ss := e.NewSchema(str(credgen.SerAttr("price", "", "", "name")))
+	good := []credgen.Spec{{Schema: ms, Subject: did, WithProof: true}, {Schema: ss, WithProof: true}}
+	var bad []credgen.Spec
+	for _, po := range []string{"nan", "inf", "chan", "func", "marshaler"} {
+		bad = append(bad, credgen.Spec{Schema: ms, Subject: did, WithProof: true, Poison: po}, credgen.Spec{Schema: ss, WithProof: true, Poison: po})
+	}
+	bad = append(bad, credgen.Spec{Schema: ms, Subject: "not-a-did", WithProof: true}, credgen.Spec{Schema: ss, Subject: "did:example:1", WithProof: true},
+		credgen.Spec{Schema: ss, Omit: []string{"name"}, WithProof: true}, credgen.Spec{Schema: ms, WithProof: true, ExtraCtx: []string{"https://schemas.example/gen/missing.json-ld"}})
+	for bi, b := range bad {
+		gd := good[bi%2]
+		// the failing call alone, twice; then between calls that succeed, sharing the option object
+		g.add(&Input{Kind: "failing", Creds: []credgen.Spec{b}, Opts: []credgen.Opts{{}}, Calls: []Call{{0, 0}, {0, 0}, {0, -1}}})
+		g.add(&Input{Kind: "failing", Creds: []credgen.Spec{gd, b}, Opts: []credgen.Opts{{Upd: true, Version: 1}}, Calls: []Call{{0, 0}, {1, 0}, {0, 0}, {1, 0}, {0, 0}}})
+	}
+	for _, gd := range good {
+		// the contexts do not load with loader 2; unknown positions; then the same objects with a working loader
+		g.add(&Input{Kind: "failing", Creds: []credgen.Spec{gd}, Opts: []credgen.Opts{{Loader: 2}, {}, {Subject: "bogus", Root: "bogus"}},
+			Calls: []Call{{0, 0}, {0, 1}, {0, 2}, {0, 0}, {0, 1}, {0, -1}}})
+	}
+}
+
+// contextStream: credentials with three and more contexts.  The schema's context depends on an EARLIER
+// one (the type's @id is written `acme:Name`, the prefix comes from the context before it); a LATER
+// context redefines the type with another attribute (the last definition is the type's); unrelated
+// contexts before and after.
+func (g *gen) contextStream(p pool) {
+	e := g.env
+	str := func(s string) *string { return &s }
+	did := credgen.MakeDID(15)
+	var specs []credgen.Spec
+	mk := func(ser *string, compact bool) *credgen.Schema {
+		s := e.NewSchema(ser)
+		if compact {
+			s.TypeIDWritten = "acme:" + s.TypeName
+			s.TypeIRI = credgen.AcmeNS + s.TypeName
+		}
+		_ = e.Register(s)
+		return s
+	}
+	a := mk(str(credgen.SerAttr("price", "", "", "name")), true)
+	specs = append(specs, credgen.Spec{Schema: a, PreCtx: []string{credgen.URLPrefixCtx}},
+		credgen.Spec{Schema: a, PreCtx: []string{credgen.URLNoiseCtx, credgen.URLPrefixCtx}, ExtraCtx: []string{credgen.URLNoiseCtx}, Subject: did},
+		credgen.Spec{Schema: a, PreCtx: []string{credgen.URLPrefixCtx}, NoSubjectType: true, Subject: did})
+	am := mk(nil, true) // merklized, prefix-dependent
+	specs = append(specs, credgen.Spec{Schema: am, PreCtx: []string{credgen.URLPrefixCtx, credgen.URLNoiseCtx}, Subject: did})
+	// without the earlier context the compact IRI stays what it is: another type IRI, no attribute found
+	specs = append(specs, credgen.Spec{Schema: a, Subject: did})
+	// a later context redefines the type
+	for _, pair := range [][2]*string{{str(credgen.SerAttr("price", "", "", "")), str(credgen.SerAttr("", "count", "name", ""))},
+		{str(credgen.SerAttr("price", "", "", "")), nil}, {nil, str(credgen.SerAttr("", "", "", "info.since"))}, {str(credgen.SerAttr("name", "", "", "")), str("iden3:v1:bad")}} {
+		b := mk(pair[0], false)
+		b.Unprotected = true
+		_ = e.Register(b)
+		ov := &credgen.Schema{URL: strings.Replace(b.URL, ".json-ld", "-override.json-ld", 1), TypeName: b.TypeName, TypeIRI: b.TypeIRI, Ser: pair[1], CtxShape: "map", Unprotected: true}
+		specs = append(specs, credgen.Spec{Schema: b, Override: ov, Subject: did}, credgen.Spec{Schema: b, Override: ov, PreCtx: []string{credgen.URLNoiseCtx}, ExtraCtx: []string{credgen.URLPrefixCtx}})
+	}
+	os := []credgen.Opts{{}, {Subject: "value", Upd: true, Version: 5, RevNonce: 6}, {Root: "value"}}
+	for _, sp := range specs {
+		for _, o := range os {
+			g.add(&Input{Kind: "contexts", Creds: []credgen.Spec{sp}, Opts: []credgen.Opts{o}, Calls: []Call{{0, 0}}})
+		}
+		g.add(&Input{Kind: "contexts", Creds: []credgen.Spec{sp}, Calls: []Call{{0, -1}, {0, -1}}})
+	}
+}
+
 func (g *gen) repeatStream(p pool) {
 	pick := []credgen.Spec{p.merk[5], p.ser[len(p.ser)-1]}
 	for _, c := range p.special {
@@ -996,9 +1122,9 @@ func (g *gen) writeShards() error {
 func Run(cfg *common.Config) (*common.Report, error) {
 	rep := common.NewReport("C05")
 	rep.Correspondence = "Claim.Run.hmismatches: run_history / to_core_claim (Claim/Model.v) vs W3CCredential.ToCoreClaim over histories of calls sharing option objects and credentials: per call the 8 raw slot integers or the error class, and the option objects after the history"
-	rep.Rule = "option grid {\"\",index,value,bogus}^2 x updatable x version {0,1,2^32-1} x nonce {0,1,2^64-1} (288 points; complete on two credentials in the quick tier, on all in the thorough tier, sampled otherwise) x credentials (merklized; serialized with all 2^4 slot subsets; subject id none / two DIDs; expiration none / 2030 / 1969 / 0 / instants with fractional seconds .4 .5 .75 .999999999 written with zone offsets, also before 1970) + special credentials (unusable DIDs, null id, type taken from the top-level pair, missing named field, malformed attributes, non-string attribute, array-shaped scoped contexts, sibling types, unloadable context) + random histories of 1..6 calls over 1..3 shared option objects (or nil) and 1..3 credentials + histories in which two document loaders serve different schema documents (merklized / serialized / other assignment / malformed) at the same @context URLs and type, interleaved in both orders + 30-fold repetitions. distinct = distinct (credential specs, option objects, call list) histories; every history is non-trivial (it reaches the claim builder or one of its error points)."
+	rep.Rule = "option grid {\"\",index,value,bogus}^2 x updatable x version {0,1,2^32-1} x nonce {0,1,2^64-1} (288 points; complete on two credentials in the quick tier, on all in the thorough tier, sampled otherwise) x credentials (merklized; serialized with all 2^4 slot subsets; subject id none / two DIDs; expiration none / 2030 / 1969 / 0 / instants with fractional seconds .4 .5 .75 .999999999 written with zone offsets, also before 1970) + special credentials (unusable DIDs, null id, type taken from the top-level pair, missing named field, malformed attributes, non-string attribute, array-shaped scoped contexts, sibling types, unloadable context) + random histories of 1..6 calls over 1..3 shared option objects (or nil) and 1..3 credentials + histories in which two document loaders serve different schema documents (merklized / serialized / other assignment / malformed) at the same @context URLs and type, interleaved in both orders + failing calls (unmarshalable subject values NaN / +Inf / channel / function / failing Marshaler, unloadable contexts, bad DIDs, unknown positions) on credentials carrying proofs, between successful calls on the same objects + credentials with 3+ contexts (type @id spelled with a prefix of an earlier context; a later context redefining the type) + 30-fold repetitions. distinct = distinct (credential specs, option objects, call list) histories; every history is non-trivial (it reaches the claim builder or one of its error points)."
 	g := &gen{cfg: cfg, rep: rep, env: credgen.NewEnv(), views: map[string]credgen.View{}, fresh: map[string]callObs{}}
-	g.envs = []*credgen.Env{g.env, credgen.NewEnv()}
+	g.envs = []*credgen.Env{g.env, credgen.NewEnv(), credgen.NewEnv()}
 	merklize.SetDocumentLoader(g.env.Loader) // nil options carry no merklizer options: the default loader must be offline too
 	if cfg.Replay != "" {
 		return replay(cfg, g)
@@ -1008,6 +1134,8 @@ func Run(cfg *common.Config) (*common.Report, error) {
 	g.specialStream(p)
 	g.sequenceStream(p)
 	g.loaderStream(p)
+	g.failingStream(p)
+	g.contextStream(p)
 	g.repeatStream(p)
 	g.flush()
 	for i, in := range g.hists {
